@@ -290,6 +290,29 @@ def p_zip(I, n, pos, kw):
     return ObjV(None, dict(items=list(pos)), tag="zip")
 
 
+@prim("builtins.dict")
+def p_dict(I, n, pos, kw):
+    if not pos:
+        return DictV({k: v for k, v in kw.items()})
+    v = pos[0]
+    if isinstance(v, DictV) and not kw:
+        d2 = DictV(dict(v.d), v.generic)
+        d2.keymap = getattr(v, "keymap", None)
+        return d2
+    if isinstance(v, ObjV) and v.tag == "zip" and len(v.attrs["items"]) == 2 and not kw:
+        ks, vs = [x if isinstance(x, Arr) else arrays.to_arr(x) for x in v.attrs["items"]]
+        if isinstance(ks, Arr) and isinstance(vs, Arr) and ks.ndim == 1 and vs.ndim == 1 and ks.axes[0][0].same_size(vs.axes[0][0]):
+            # {keys[t]: values[t]}: a lookup by a key that is keys[x] for a known position x yields values[x]
+            iv = fresh()
+            dv = DictV({}, generic=Sc(sym.subst_ivar(vs.elem, vs.axes[0][1], (iv, 0))))
+            dv.keymap = (sym.subst_ivar(ks.elem, ks.axes[0][1], (iv, 0)), sym.subst_ivar(vs.elem, vs.axes[0][1], (iv, 0)),
+                         iv, ks.axes[0][0])
+            dv.key_kind = "other"
+            I.event("dict-from-zip", n, keys=ks, values=vs)
+            return dv
+    return I.unknown("prim:builtins.dict", n)
+
+
 @prim("builtins.list", "builtins.tuple")
 def p_list(I, n, pos, kw):
     if not pos:
@@ -332,6 +355,9 @@ def p_len(I, n, pos, kw):
         return Sc(out)
     if isinstance(v, ObjV) and v.tag == "hk_matching":
         return Sc(sym.Opq("hk_len", v.attrs.get("deps", ()), v.attrs.get("uid")))
+    if isinstance(v, ObjV) and v.tag == "bucket":
+        root = v.attrs["root"]
+        return Sc(sym.Opq("bucket-len", (v.attrs["index"],), root.uid or id(root)))
     if isinstance(v, Alt):
         return Sc(sym.Choice([p_len(I, n, [x], {}).e for x in v.vals]))
     return Sc(sym.Opq("len", (generic_elem(v),), fresh("n")))
@@ -781,6 +807,21 @@ for _op, _names in (("sum", ("numpy.sum", "builtins.sum")), ("max", ("numpy.max"
 @prim("numpy.argmax", "numpy.argmin")
 def p_arg(I, n, pos, kw):
     t = I.log[-1]["target"].rsplit(".", 1)[1]
+    axis = _kw(kw, pos, "axis", 1)
+    v = arrays.to_arr(pos[0]) if not isinstance(pos[0], Arr) else pos[0]
+    if isinstance(v, (Blocks, DiagMat)):
+        v = arrays.densify(v)
+    if isinstance(v, Arr) and (v.ndim == 1 or (axis is not None and not isinstance(axis, NoneV) and _num(axis) is not None)):
+        # position (along one axis) of the first extreme entry: a reduction that yields an index
+        ax = 0 if v.ndim == 1 else int(_num(axis))
+        if ax < 0:
+            ax += v.ndim
+        if 0 <= ax < v.ndim and v.axes[ax][0].concrete is None:
+            sp, iv = v.axes[ax]
+            I.event("argextreme", n, op=t, arg=v, axis=ax)
+            e = sym.Red(t, iv, sp, v.elem)
+            rest = [a for k, a in enumerate(v.axes) if k != ax]
+            return Arr(rest, e, "nd") if rest else Sc(e)
     return Sc(sym.Opq(t, (generic_elem(pos[0]),), fresh("k")))
 
 
@@ -805,6 +846,16 @@ def p_sort(I, n, pos, kw):
         return Arr(v.axes, sym.Opq("colsorted", (v.elem,), None), "nd")
     if "key" in kw and not isinstance(kw["key"], NoneV):
         return I.unknown("sorted-with-key", n, (generic_elem(v),))
+    if isinstance(v, ObjV) and v.tag == "bucket":
+        rv = kw.get("reverse")
+        if rv is None or isinstance(rv, NoneV) or (isinstance(rv, Sc) and rv.e == sym.FALSE):
+            order = "asc"
+        elif isinstance(rv, Sc) and rv.e == sym.TRUE:
+            order = "desc"
+        else:
+            return I.unknown("sorted-reverse-not-constant", n)
+        from .values import bucket_handle
+        return bucket_handle(v.attrs["base"], v.attrs["index"], order)
     if isinstance(v, Bag):
         return Bag(v.elem, v.size, True, v.src, v.parts)
     if isinstance(v, Concat):
@@ -1145,6 +1196,13 @@ def m_reshape(I, n, recv, pos, kw):
             return Arr(recv.axes, recv.elem, "nd")
         ev["verdict"] = "scrambled"
         return I.unknown("reshape-scrambles-axes", n, (generic_elem(recv),))
+    # reshape(-1, k) of an (n, k) array (k concrete) is the array itself (C order); also spelled with the sizes
+    ra = recv if isinstance(recv, Arr) else arrays.to_arr(recv)
+    if isinstance(ra, Arr) and ra.ndim == 2 and tgt is not None and len(tgt) == 2 and o == "C" \
+            and ra.axes[1][0].concrete is not None and tgt[1] == sym.Num(ra.axes[1][0].concrete) \
+            and (tgt[0] == sym.Num(-1) or sym.equal(tgt[0], ra.axes[0][0].size)):
+        ev["verdict"] = "same-shape"
+        return Arr(ra.axes, ra.elem, "nd")
     return I.unknown("reshape", n, (generic_elem(recv),))
 
 
@@ -1168,6 +1226,9 @@ def m_append(I, n, recv, pos, kw):
         return NoneV()
     if isinstance(recv, Seq):
         recv.items.append(pos[0])
+        return NoneV()
+    if isinstance(recv, ObjV) and recv.tag == "bucket" and len(pos) == 1:
+        I.event("bucket-append", n, base=recv.attrs["base"], index=recv.attrs["index"], value=pos[0])
         return NoneV()
     return I.unknown("append-on-" + type(recv).__name__, n)
 
